@@ -115,6 +115,11 @@ pub fn run(p: &AdvParams, sc: &str) -> (Vec<Vec<String>>, Value) {
             "DmaDealloc" => {
                 out.push(json!({"e":"DmaDealloc","seq":v["seq"],"known":v["known"],"va_ok":v["va_ok"],"pages_ok":v["pages_ok"],"ap_ok":v["ap_ok"]}).to_string());
             }
+            // the device is live between DRIVER_OK and the next reset
+            "T" if v["op"].as_str() == Some("set_status") => {
+                let st = v["v"].as_u64().unwrap_or(0);
+                out.push(json!({"e":"Status","driver_ok":st & 4 != 0,"reset":st == 0}).to_string());
+            }
             "FreeShared" => out.push(json!({"e":"FreeShared","q":v["q"],"during":last_op,"kind":p.sub["family"]}).to_string()),
             "Call" => {
                 last_op = v["op"].as_str().unwrap_or("").to_string();
